@@ -10,6 +10,15 @@ CLAIMED = {
         ref="5 C14"),
 }
 
+LOADER_NOTE = ("Trusted: Coq kernel; translator T1; extraction (ExtrOcamlBasic) + OCaml driver; the differential harness and its "
+               "generators; mpmath as numeric oracle with a forward error bound; numpy/sympy/ANTLR runtime modelled, not verified. "
+               "The model's recursive-descent parser is tied to the grammar by the proved recogniser (per input) and to ANTLR by the differential.")
+
+CLAIMED["C06"] = dict(
+    technique="Coq proof (loop = textual unrolling, by a substitution lemma, over the executable loader model) + differential correspondence and metamorphic unrolling predicate on the implementation",
+    text="Theorems (closed): loop_unroll (executing a for-loop equals executing its body once per value with the variable replaced by the cast value; equality of outcomes incl. refusals), range_sem/range_sem_neg (a:b:c = a, a+c, ... below b), empty ranges contribute nothing, the loop variable is unbound and the environment unchanged after the loop, statements after the loop are unaffected, bad listed values are refused. The model is tied to the code by loading every generated loop script with both and comparing programs, and by checking loop == unrolled text on the implementation itself.",
+    note=LOADER_NOTE, ref="5 C06")
+
 NOT_YET = {
 }
 
